@@ -110,9 +110,15 @@ def harnesses(tier, seed):
         if not th:
             setup += "\nC = dict(C, cfg=C['cfg'].but(K=1))"
         call = "ob_choice(C, v, hs, dtn)"
+        k1 = c["cfg"].but(K=1) if not th else c["cfg"]
+        sv = shape.samples(c["ir"], c["names"], k1, seed + 5, n=3)
+        hz = (0, 0, 0) if th else (0, 0)
+        h1 = (1, 0, 0) if th else (1, 0)
         hs.append(Harness(f"choice.{name}", "props.l9", f"v: {a}, hs: Tuple[int, int{', int' if th else ''}], dtn: bool",
-                          call + "[0]", replay_call=call, setup=setup, what=f"union branch choice in {name}"))
+                          call + "[0]", replay_call=call, setup=setup, what=f"union branch choice in {name}",
+                          samples=[(v, hz, False) for v in sv[:2]] + [(v, h1, False) for v in sv[2:]]))
         call = "ob_closure(C, v, rrn, rrno, rnt, rnto)"
         hs.append(Harness(f"closure.{name}", "props.l9", f"v: {a}, rrn: bool, rrno: bool, rnt: bool, rnto: bool",
-                          call + "[0]", replay_call=call, setup=setup, what=f"read/write closure in {name}"))
+                          call + "[0]", replay_call=call, setup=setup, what=f"read/write closure in {name}",
+                          samples=[(v, i == 0, False, i == 1, i == 2) for i, v in enumerate(sv)]))
     return hs
